@@ -131,6 +131,15 @@ func execC13Inner(op string, a []string) string {
 				} else {
 					vals = append(vals, "0")
 				}
+			case "mo": // MoreRbspData look-ahead (state must be restored exactly)
+				more, err := r.MoreRbspData()
+				if err != nil {
+					vals = append(vals, "merr")
+				} else if more {
+					vals = append(vals, "m1")
+				} else {
+					vals = append(vals, "m0")
+				}
 			case "by":
 				b := r.ReadBytes(int(u(p[1])))
 				if b == nil {
@@ -364,6 +373,30 @@ func genC13(c *Ctx) {
 		if len(rf) < 2 || rf[0] != strings.Join(expect, ",") || rf[1] != "ok" {
 			c.Fail("C13-ebsp-roundtrip", "values read back differ from values written", wreq+" | "+rreq, rres, strings.Join(expect, ","))
 		}
+		// the same read with a MoreRbspData look-ahead before every element: the look-ahead must leave no trace
+		if i%2 == 0 {
+			var rops2 []string
+			for _, o := range rops {
+				rops2 = append(rops2, "mo", o)
+			}
+			rops2 = append(rops2, "mo")
+			mreq := "er " + hexOut + " " + strings.Join(rops2, " ")
+			mres := execC13(mreq)
+			c.Case(mreq, mres)
+			mf := strings.Fields(mres)
+			var kept []string
+			if len(mf) > 0 {
+				for _, v := range strings.Split(mf[0], ",") {
+					if !strings.HasPrefix(v, "m") {
+						kept = append(kept, v)
+					}
+				}
+			}
+			if len(mf) < 2 || strings.Join(kept, ",") != strings.Join(expect, ",") || mf[1] != "ok" || (len(rf) >= 3 && len(mf) >= 3 && mf[2] != rf[2]) {
+				c.Fail("C13-lookahead-roundtrip", "values (or the byte counter) read back with MoreRbspData look-aheads in between differ from a plain read", wreq+" | "+mreq, mres, rres)
+			}
+			c.Count("lookahead-read")
+		}
 		key := ""
 		if nontriv || bytes.Contains(outBytes, []byte{0, 0, 3}) {
 			key = wreq
@@ -409,6 +442,8 @@ func genC13(c *Ctx) {
 			}
 			jq := "er " + hx(junk) + " " + strings.Join(rops, " ")
 			c.Case(jq, execC13(jq))
+			jq2 := "er " + hx(junk) + " mo " + strings.Join(rops, " mo ")
+			c.Case(jq2, execC13(jq2))
 			c.Eval("")
 			c.Count("junk-read")
 		}
